@@ -27,6 +27,17 @@ Fixpoint expected (ops : list sop) (prev_d prev_u : option N) (cur_d cur_u cur_x
       rep ++ expected r (Some cur_d) (Some cur_u) 0 0 0
   end.
 
+(* the counters fit u64 in every interval (16 EiB in ten seconds is outside what a connection can deliver: beyond it
+   only agreement with the model is asked, not absence of the arithmetic-overflow panic of the counter itself) *)
+Fixpoint fitsb (ops : list sop) (cur_d cur_u cur_x : N) : bool :=
+  match ops with
+  | [] => true
+  | SDown x :: r => (cur_d + x <? two64s) && fitsb r (cur_d + x) cur_u cur_x
+  | SUp x :: r => (cur_u + x <? two64s) && fitsb r cur_d (cur_u + x) cur_x
+  | SUnexpected :: r => (cur_x + 1 <? two64s) && fitsb r cur_d cur_u (cur_x + 1)
+  | STick :: r => fitsb r 0 0 0
+  end.
+
 Definition code (c : case) : N :=
   match c with
   | CStats ovf ops impl =>
@@ -35,7 +46,8 @@ Definition code (c : case) : N :=
                | Panic, None => true
                | _, _ => false
                end in
-      let o := match impl with
+      let o := negb (fitsb ops 0 0 0) ||
+               match impl with
                | Some i => list_eqb report_eqb (expected ops None None 0 0 0) i
                | None => false
                end in
